@@ -89,8 +89,50 @@ func fixedSessions() []sessIn {
 		conn("shared-ephemeral-register-eof", "OK", visitor("")),
 		conn("shared-ephemeral-register-unregister", "OK", visitor("UNREGISTER "+byTopic+" "+byEph+"\nUNREGISTER "+byTopic+" "+byEph+"\n")),
 		actIn{K: "op", Op: &opIn{K: "ping"}})
-	return []sessIn{{Profile: "hostile", Name: "fixed-F2-identify-negative-size", Acts: acts},
+	out := []sessIn{{Profile: "hostile", Name: "fixed-F2-identify-negative-size", Acts: acts},
 		{Profile: "hostile", Name: "fixed-shared-ephemeral-channel", Acts: shared}}
+	return append(out, identitySessions()...)
+}
+
+// identitySessions: the matrix (identity member of the IDENTIFY body) x (live victim:
+// the bystander, the visitor) x (what the connection does next), one stream per cell, with
+// a bystander and a visitor connected and registered.  Whatever the body says, the
+// connection's registry id is its socket address: nothing of the victims may change.
+func identitySessions() []sessIn {
+	var out []sessIn
+	for vi, val := range []string{"@BY@", "@VIS@"} {
+		acts := []actIn{{K: "op", Op: &opIn{K: "identify", Info: &byInfo}}, {K: "op", Op: &opIn{K: "register", T: byTopic, C: byChan}},
+			{K: "op", Op: &opIn{K: "register", T: byTopic, C: byEph}},
+			{K: "vop", Op: &opIn{K: "identify", Slot: 1, Info: &nodePool[1]}},
+			{K: "vop", Op: &opIn{K: "register", Slot: 1, T: visTopic, C: visChan}},
+			{K: "vop", Op: &opIn{K: "register", Slot: 1, T: byTopic, C: byChan}}}
+		for ki, key := range identityKeys {
+			tail := victimTails[(ki+vi*4)%len(victimTails)]
+			expect := "OK"
+			if tail == "" {
+				expect = "JSON"
+			}
+			in := nodePool[ki%len(nodePool)]
+			if ki%4 == 3 {
+				in = byInfo
+			}
+			acts = append(acts, actIn{K: "conn", Expect: expect, Class: "identify-identity-member", IdTag: key + "=" + valKind(val),
+				Segs: []segIn{rawSeg("  V1"), {Ident: identityBody(in, key, val, ki%3)}, rawSeg(tail)}})
+			if ki%5 == 4 {
+				acts = append(acts, actIn{K: "op", Op: &opIn{K: "ping"}}, actIn{K: "vop", Op: &opIn{K: "ping", Slot: 1}})
+			}
+		}
+		// the visitor leaves and comes back claiming the bystander's identity itself
+		acts = append(acts, actIn{K: "vop", Op: &opIn{K: "disconnect", Slot: 1}},
+			actIn{K: "vop", Op: &opIn{K: "identify", Slot: 1, Info: &nodePool[0]}, Extra: [][2]string{{"remote_address", "@BY@"}}, IdTag: "remote_address=bystander-id"},
+			actIn{K: "vop", Op: &opIn{K: "register", Slot: 1, T: byTopic, C: byChan}},
+			actIn{K: "vop", Op: &opIn{K: "unregister", Slot: 1, T: byTopic, C: byChan}},
+			actIn{K: "vop", Op: &opIn{K: "unregister", Slot: 1, T: byTopic}},
+			actIn{K: "vop", Op: &opIn{K: "disconnect", Slot: 1}},
+			actIn{K: "op", Op: &opIn{K: "ping"}})
+		out = append(out, sessIn{Profile: "hostile", Name: fmt.Sprintf("fixed-identity-members-%d", vi), Acts: acts})
+	}
+	return out
 }
 
 // ------------------------------------------------------------------ fingerprint
